@@ -184,14 +184,9 @@ static std::string getRelativeFilename(const simplecpp::TokenList &tokens, const
     if (!tok)
         return "";
     std::string relativeFilename(tokens.file(tok->location));
-    if (settings.relativePaths) {
-        for (const std::string & basePath : settings.basePaths) {
-            const std::string bp = basePath + "/";
-            if (relativeFilename.compare(0,bp.size(),bp)==0) {
-                relativeFilename = relativeFilename.substr(bp.size());
-            }
-        }
-    }
+    // use the same function as TokenList so the name matches the one in the findings
+    if (settings.relativePaths)
+        relativeFilename = Path::getRelativePath(relativeFilename, settings.basePaths);
     return Path::simplifyPath(std::move(relativeFilename));
 }
 
